@@ -151,7 +151,10 @@ vbi_event_enable(vbi_decoder *vbi, int mask)
 	if (activate & VBI_EVENT_CAPTION)
 		vbi_caption_channel_switched(vbi);
 	if (activate & (VBI_EVENT_NETWORK | VBI_EVENT_NETWORK_ID))
-		memset(&vbi->network, 0, sizeof(vbi->network));
+		/* Not the whole vbi_event: this may run inside a handler of
+		   the very NETWORK / NETWORK_ID event, ev->type must survive. */
+		memset(&vbi->network.ev.network, 0,
+		       sizeof(vbi->network.ev.network));
 	if (activate & VBI_EVENT_TRIGGER)
 		vbi_trigger_flush(vbi);
 	if (activate & (VBI_EVENT_ASPECT | VBI_EVENT_PROG_INFO)) {
